@@ -47,6 +47,10 @@ func c04Config(seed uint64, c int) (*SendScenario, []c04Pos) {
 		for _, k := range all {
 			if r.Chance(1, 2) {
 				switch {
+				case k == "AUTH" && c%3 == 1:
+					// mechanisms whose names merely contain the name of the one the client is
+					// configured for (what Gmail announces, for example)
+					caps = append(caps, "AUTH LOGIN PLAIN-CLIENTTOKEN OAUTHBEARER XOAUTH2")
 				case k == "AUTH":
 					caps = append(caps, "AUTH PLAIN LOGIN")
 				case k != "STARTTLS" && spell == 0:
